@@ -195,6 +195,8 @@ def run_stream(ctx, stream, extra=(), oracle_only=False, seed=None, sub=None, n=
     out = os.path.join(ctx.work, sub or stream)
     os.makedirs(out, exist_ok=True)
     cmd = [ctx.vh, stream, "-seed", str(ctx.seed if seed is None else seed), "-tier", ctx.tier, "-out", out] + list(extra)
+    if "-repo" not in cmd:
+        cmd += ["-repo", REPO]   # every stream that builds the CLI must build it from the tree under check
     if n:
         cmd += ["-n", str(n)]
     if oracle_only:
